@@ -54,6 +54,17 @@ Conserved(inp, ls) ==
   IN /\ Len(a) = Len(b)
      /\ \A k \in 1..Len(a) : IG(a[k]) = LG(b[k]) /\ ISt(a[k]) = LSt(b[k])
 
+(* Diagnosis of a recorded finding: cr = pairs <<g, core>> for clusters that begin with    *)
+(* white space without being white space (an isolated accent carried by a space), core =   *)
+(* the cluster without that leading white space.  ConservedCore holds when the lines differ *)
+(* from the input by nothing but such a carrier space having been cut off.                  *)
+CoreOf(cr, g) == IF \E k \in 1..Len(cr) : cr[k][1] = g THEN cr[CHOOSE k \in 1..Len(cr) : cr[k][1] = g][2] ELSE g
+ConservedCore(inp, ls, cr) ==
+  LET a == NonWsI(inp)
+      b == NonWsL(Flat(ls))
+  IN /\ Len(a) = Len(b)
+     /\ \A k \in 1..Len(a) : CoreOf(cr, IG(a[k])) = CoreOf(cr, LG(b[k])) /\ ISt(a[k]) = LSt(b[k])
+
 (* ---- 2. width ----------------------------------------------------------- *)
 (* Ignoring trailing whitespace a line is no wider than the width, except   *)
 (* a line holding a single grapheme that is itself wider than the line.     *)
